@@ -19,6 +19,8 @@ from typing import Any
 from mc.stats import Stats
 
 ROOT = os.path.dirname(os.path.dirname(os.path.abspath(__file__)))
+# runs against a scratch copy of the repo (mutation trials) must not overwrite real evidence / replays
+OUT = os.path.join(os.environ["VERIF_REPO"], "_verif_out") if os.environ.get("VERIF_REPO") else ROOT
 FINDINGS = os.path.join(ROOT, "known_findings.json")
 
 
@@ -62,7 +64,7 @@ class Ctx:
                 print(f"KNOWN-FINDING: property={self.pid} {known[sig].get('what', v['what'])} [{sig}] (x{v['count']})")
             else:
                 new.append((sig, v))
-        rdir = os.path.join(ROOT, "replays", self.pid)
+        rdir = os.path.join(OUT, "replays", self.pid)
         for sig, v in new:
             os.makedirs(rdir, exist_ok=True)
             h = hashlib.sha1(sig.encode()).hexdigest()[:12]
@@ -103,8 +105,8 @@ class Ctx:
             "wall_s": round(time.time() - self.t0, 3),
             "violations": len(new),
         }
-        os.makedirs(os.path.join(ROOT, "evidence"), exist_ok=True)
-        with open(os.path.join(ROOT, "evidence", f"{self.pid}.json"), "w") as f:
+        os.makedirs(os.path.join(OUT, "evidence"), exist_ok=True)
+        with open(os.path.join(OUT, "evidence", f"{self.pid}.json"), "w") as f:
             json.dump(ev, f, indent=1, default=str)
         print(f"[{self.pid}] tier={self.tier} seed={self.seed} states={st.states} transitions={st.transitions} "
               f"executions={st.executions} nontrivial={st.nontrivial} outcomes={len(st.outcomes)} "
